@@ -97,7 +97,11 @@ class FakeState:
                 v = 1.0 if rec.rng_jump.random() > rec.physical.get("bad_jump_norm", 0.0) else 2.0
             else:
                 t = float(rec.impl.current_time) - rec.last_jump_time
-                v = max(1, round(4096 * 2.0 ** (-rec.physical["rate"] * max(t, 0.0)))) / 4096.0
+                if rec.physical.get("smooth"):
+                    # un-quantised decay (falsifier only: the Coq model is not run on these values)
+                    v = 2.0 ** (-rec.physical["rate"] * max(t, 0.0))
+                else:
+                    v = max(1, round(4096 * 2.0 ** (-rec.physical["rate"] * max(t, 0.0)))) / 4096.0
             rec.norm_log.append(v)
             return FakeNorm(v)
         if not rec.norms:
